@@ -341,6 +341,41 @@ def login_secrets_case(ctx, case):
     ctx.label('logins')
 
 
+def secret_bits_case(ctx, case):
+    """'16 fresh random bytes': every one of the 128 bit positions takes
+    both values over n draws of the library's secret generator (n = 256: a
+    uniform source fails this with probability 128 x 2^-255), no draw
+    repeats, each is 16 bytes of type bytes.  case {n}"""
+    from minecraft.networking import encryption
+    n = case['n']
+    ctx.ev()
+    try:
+        draws = [encryption.generate_shared_secret() for _ in range(n)]
+    except Exception as e:
+        ctx.fail('secret_bits', 'E5-generator-raises', case, exc=e)
+        return
+    if any(type(d) is not bytes or len(d) != 16 for d in draws):
+        ctx.fail('secret_bits', 'E5-secret-length', case,
+                 sorted({(type(d).__name__, len(d)) for d in draws})[:3])
+        return
+    if len(set(draws)) != n:
+        ctx.fail('secret_bits', 'E5-secret-repeated', case)
+        return
+    ones = [0] * 128
+    for d in draws:
+        v = int.from_bytes(d, 'big')
+        for b in range(128):
+            ones[b] += (v >> (127 - b)) & 1
+    stuck = [(b, ones[b] // n) for b in range(128) if ones[b] in (0, n)]
+    if stuck:
+        ctx.fail('secret_bits', 'E5-secret-bits-constant', case,
+                 'bit positions (MSB first) that never varied in %d draws: '
+                 '%r' % (n, stuck[:12]), 'all 128 bits vary')
+        return
+    ctx.nt('secret_bits', n)
+    ctx.label('secret_bits')
+
+
 def installed_case(ctx, case):
     """The wrappers exactly as the library's own login reaction installs
     them: feed an encryption request to the real LoginReactor on a
@@ -450,6 +485,7 @@ def installed_case(ctx, case):
 COMPONENTS = {'stream': stream_case, 'rsa': rsa_case,
               'login_secrets': login_secrets_case,
               'surface': surface_case,
+              'secret_bits': secret_bits_case,
               'installed': installed_case}
 
 
@@ -494,6 +530,7 @@ def t_streams(ctx, n, maxlen, pure_every):
 
 
 def t_fixed(ctx):
+    secret_bits_case(ctx, {'n': 256})
     for secret in (bytes(16), b'\xff' * 16, bytes(range(16))):
         surface_case(ctx, {'secret': secret, 'before': b'earlier bytes',
                            'probe': b'PLAINTEXT-PROBE-0123456789',
